@@ -219,11 +219,20 @@ def run_config(case, ctx):
     cols = [VALUES[k][:nr] for k in kinds]
     col_labels_1 = ['c%d' % j for j in range(nc)]
     col_labels_2 = [('g%d' % (j // 2), 'c%d' % j) for j in range(nc)]
-    for idepth, cdepth, int_index in itertools.product((1, 2, 3), (1, 2), (False, True)):
-        if int_index and idepth != 1:
+    # label variants: 'wide' = text labels whose width differs from group to group (widest first), 'zero' = integer column labels that include 0 (a falsy label)
+    WIDE_INDEX = {1: ['alpha', 'b', 'cc'], 2: [('a', 'alpha'), ('a', 'be'), ('b', 'c')], 3: [('a', 'long1', 'xxx'), ('a', 's', 'yy'), ('b', 'm', 'z')]}
+    wide_cols = [('group0', 'column%d' % j) if j < 2 else ('g1', 'c%d' % j) for j in range(nc)]
+    zero_cols_1 = [0, 5, -3][:nc]
+    zero_cols_2 = [(0, 1), (0, 2), (1, 0)][:nc]
+    for idepth, cdepth, int_index in itertools.product((1, 2, 3), (1, 2), (False, True, 'wide', 'zero')):
+        if int_index is True and idepth != 1:
             continue
-        il = INT_INDEX[:nr] if int_index else INDEX_LABELS[idepth][:nr]
+        if int_index == 'zero' and idepth != 1:
+            continue
+        il = INT_INDEX[:nr] if int_index is True else (WIDE_INDEX[idepth][:nr] if int_index == 'wide' else INDEX_LABELS[idepth][:nr])
         index = il if idepth == 1 else sf.IndexHierarchy.from_labels(il)
+        col_labels_1 = zero_cols_1 if int_index == 'zero' else ['c%d' % j for j in range(nc)]
+        col_labels_2 = zero_cols_2 if int_index == 'zero' else (wide_cols if int_index == 'wide' else [('g%d' % (j // 2), 'c%d' % j) for j in range(nc)])
         columns = col_labels_1 if cdepth == 1 else sf.IndexHierarchy.from_labels(col_labels_2)
         f = sf.Frame.from_items(zip(range(nc), cols), index=index).relabel(columns=columns).rename('f')
         # the tab path cannot carry the quote character (known finding, keyed in the text family): use a quote-free text there
